@@ -98,6 +98,22 @@ def run_case(ctx, g, rng):
                                   first=answers[q], second=a)
     else:
         probe.evaluated("order-independence", 0)
+    # the converter is used as an input of derivations, the derived converters are modified, and then it is asked again
+    if n >= 1 and g % 4 == 1 and d == ":":
+        r0 = rng.choice(recs)
+        nested = r0.uri_prefix + "zz_"
+        other = api.Converter([api.Record(prefix=r0.prefix, uri_prefix=nested, prefix_synonyms=["zzsyn"]),
+                               api.Record(prefix="zzother", uri_prefix="http://zz.other/")])
+        call(api.chain, [c, other])
+        so = call(c.get_subconverter, [p for r in recs for p in spec.all_p(r)])
+        if so[0] == "ret":
+            call(so[1].add_record, api.Record(prefix="zzsyn2", uri_prefix=r0.uri_prefix + "yy_", prefix_synonyms=[r0.prefix]), merge=True)
+        for q in [nested + "1", r0.uri_prefix + "yy_1", r0.uri_prefix + "1", *qs[:20]]:
+            call(c.parse_uri, q, return_none=True)
+            call(c.compress, q)
+            call(c.is_uri, q)
+        probe.S.counters["wl:asked-again-after-being-derived-from"] += 1
+        probe.note_key(f"after-derivation:{shape}", True)
     # histories: the same strings are asked before and after every registration (a lookup that remembers an
     # answer from before a nested prefix or synonym arrived gives itself away only this way)
     if n >= 2 and g % 2 == 0:
